@@ -197,10 +197,22 @@ class StepGen:
             if m is None:
                 return ReplaceStep(f, t, Slice.empty)
             return (AddMarkStep if kind == "addMark" else RemoveMarkStep)(f, t, m)
+        if kind in ("addNodeMark", "removeNodeMark", "attr") and r.random() < 0.8:
+            poss = []
+            doc.descendants(lambda node, pos, parent, index: poss.append(pos) if not node.is_text else None)
+            if poss:
+                f = r.choice(poss)
         if kind in ("addNodeMark", "removeNodeMark"):
             m = self.mark()
             if m is None:
                 return ReplaceStep(f, t, Slice.empty)
+            if kind == "removeNodeMark" and r.random() < 0.6:
+                try:
+                    nd = doc.node_at(f)
+                    if nd is not None and nd.marks:
+                        m = r.choice(nd.marks)
+                except Exception:  # noqa: BLE001
+                    pass
             return (AddNodeMarkStep if kind == "addNodeMark" else RemoveNodeMarkStep)(f, m)
         if kind == "attr":
             node = None
